@@ -113,6 +113,21 @@ def evaluate(vs, ls, unis=(), level=2, unhashable=True, searches=True):
     return out
 
 
+def f_anchor(anchor, e, v):
+    """Used through functools.partial(f_anchor, <a vertex>): a filter object that HOLDS a graph object."""
+    return anchor is not None
+
+
+class AnchorFilter:
+    """A filter whose bound method holds on to a graph object."""
+
+    def __init__(self, anchor):
+        self.anchor = anchor
+
+    def accept(self, e, v):
+        return self.anchor is not None
+
+
 def f_q4(e, v):
     return (_LI.get(id(e), 0) + 2 * _vix(v)) % 3 != 0
 
